@@ -225,6 +225,67 @@ def load_unit(unit):
     return unit
 
 
+def offsetof_table(unit):
+    """id of every OffsetOfExpr node of the unit -> (type text, member designator).  clang's JSON dump prints neither, and the
+    expression may sit inside nested macros, so they are taken from the preprocessed text: the k-th `__builtin_offsetof(`
+    that the preprocessor emits for a source line belongs to the k-th OffsetOfExpr the AST has at that (expansion) line."""
+    tab = getattr(unit, '_offsetof', None)
+    if tab is not None:
+        return tab
+    tab = unit._offsetof = {}
+    args = ['-E' if a == '-fsyntax-only' else a for a in unit.clang_args()]
+    rc, text, err = _run(args)
+    if rc != 0 or not text:
+        return tab
+    # position -> (file, line)
+    starts, where_ = [], []
+    pos, cur_file, cur_line = 0, unit.abspath, 1
+    for raw in text.split('\n'):
+        m = re.match(r'#\s*(\d+)\s+"([^"]*)"', raw)
+        if m:
+            cur_line, cur_file = int(m.group(1)), m.group(2)
+        else:
+            starts.append(pos)
+            where_.append((os.path.realpath(cur_file) if not cur_file.startswith('<') else cur_file, cur_line))
+            cur_line += 1
+        pos += len(raw) + 1
+    import bisect
+    occ = {}
+    for m in re.finditer(r'__builtin_offsetof\s*\(', text):
+        i = m.end()
+        depth, j = 1, i
+        while j < len(text) and depth:
+            c = text[j]
+            depth += c in '([{'
+            depth -= c in ')]}'
+            j += 1
+        inner = ' '.join(text[i:j - 1].split())
+        # split at the first top-level comma
+        d, cut = 0, None
+        for k, c in enumerate(inner):
+            d += c in '([{'
+            d -= c in ')]}'
+            if c == ',' and d == 0:
+                cut = k
+                break
+        if cut is None:
+            continue
+        li = bisect.bisect_right(starts, m.start()) - 1
+        if li < 0:
+            continue
+        occ.setdefault(where_[li], []).append((inner[:cut].strip(), inner[cut + 1:].strip()))
+    nodes = {}
+    for n in walk(unit.ast):
+        if n.get('kind') == 'OffsetOfExpr' and n.get('_file'):
+            nodes.setdefault((os.path.realpath(n['_file']), n.get('_line')), []).append(n['id'])
+    for key, ids in nodes.items():
+        o = occ.get(key, [])
+        if len(o) == len(ids):
+            for nid, td in zip(ids, o):
+                tab[nid] = td
+    return tab
+
+
 def load_units(units, jobs=16):
     with ThreadPoolExecutor(max_workers=jobs) as ex:
         list(ex.map(load_unit, units))
@@ -497,8 +558,16 @@ class UnitIndex(object):
             self._tcache[qt] = t
         return t
 
+    UNNAMED_REC = re.compile(r'^(?:(?:const|volatile)\s+)*(struct|union) \((?:unnamed|anonymous)(?: struct| union)? at (.*):(\d+):(\d+)\)(?:\s+(?:const|volatile))*$')
+
     def _parse_type(self, qt):
         s = qt.strip()
+        m = self.UNNAMED_REC.match(s)
+        if m:
+            r = self.records.get(('l', m.group(2), int(m.group(3)), int(m.group(4))))
+            if r is None:
+                raise AnalysisBroken('unknown record type %r' % s)
+            return CType('rec', size=r.size or 0, rec=r)
         # function / function pointer
         if s.endswith(')') and '(' in s:
             # find the top-level '(' that starts the parameter list
